@@ -137,6 +137,7 @@ void sk_child_exit(int p, int status_word); /* env: child ends */
 int  sk_child_write(int p, int fd, int n, int stream_tag, long *off); /* env: child writes n pattern bytes */
 int  sk_child_read(int p, int fd, int n);   /* env: child reads up to n bytes from its fd */
 void sk_child_close(int p, int fd);
+void sk_dup_to(int p, int oldfd, int newfd, int cloexec, int owner);
 void sk_child_exit_keep(int p, int status_word); /* env: child ends, a descendant keeps its descriptors */
 void sk_grand_gone(int p);                       /* env: that descendant ends */
 int  sk_nfds(int p);
